@@ -284,11 +284,12 @@ def oracle(history, steps):
                     strict += 1
             m = st.out[1].get('modified')
             if m != changed:
-                # documents built by an upsert are OrderedDicts, for which an edit that only
-                # reorders keys counts as a modification; for plain dicts it does not
-                lab = 'modified-order-only' if changed <= m <= strict else 'modified-count'
-                fails.append((i, lab, '%s reported modified_count %r but %d documents differ '
-                              '(%d counting key order and numeric type)' % (k, m, changed, strict)))
+                # (before library commit 5452702 an update that only re-ordered the keys of a
+                # document built by an upsert - an OrderedDict - was counted: the repaired finding
+                # `modified-order-only`; the change test is dict inequality for every document now)
+                fails.append((i, 'modified-count', '%s reported modified_count %r but %d documents '
+                              'differ (%d counting key order and numeric type)'
+                              % (k, m, changed, strict)))
         pre = (st.extra or {}).get('pre')
         if k in WRITES and ok and pre and pre[0] == 'ok':
             # the count a write reports = what the same filter selects on the same collection
@@ -296,15 +297,9 @@ def oracle(history, steps):
             exp = min(pre[1], 1) if one else pre[1]
             got = st.out[1].get('matched') if isinstance(st.out[1], dict) else st.out[1]
             if got != exp:
+                # (before library commit 1314e5d an upsert that stored _id null reported the insert
+                # as a match: the repaired finding `upsert-null-id-matched`)
                 lab = 'write-count-vs-count'
-                had = {freeze(b.get('_id', '<missing>')) for b in prev_docs}
-                if len(st.op) > 3 and st.op[3] and pre[1] == 0 \
-                        and got == 1 and st.out[1].get('upserted') is None \
-                        and len(docs) == len(prev_docs) + 1 and None not in had \
-                        and any(d.get('_id', '<missing>') is None for d in docs):
-                    # an upsert that stored _id null: the result object cannot tell it from
-                    # "no upsert" (upserted_id is None either way) and reports the insert as a match
-                    lab = 'upsert-null-id-matched'
                 fails.append((i, lab, '%s reported %r matched / deleted '
                               'documents, count_documents with the same filter right before it '
                               'gave %r' % (k, got, pre[1])))
@@ -362,4 +357,4 @@ def nontrivial(history, steps):
     return False
 
 
-run, replay, replay_finding = histcheck.module_api(sys.modules[__name__], 1200, 30000)
+run, replay, replay_finding = histcheck.module_api(sys.modules[__name__], 1200, 30000, fixed=True)
